@@ -1335,7 +1335,9 @@ func (c *Client) GetExpiredIndexes() []meta2.ExpiredIndexInfos {
 				continue
 			}
 			for i := range rp.IndexGroups {
-				if rp.Duration == 0 || rp.IndexGroups[i].EndTime.Add(rp.Duration+RetentionDelayedTime).After(t) {
+				// two steps: rp.Duration + RetentionDelayedTime overflows time.Duration for a policy within
+				// a day of the maximum (DURATION 106751d) and would make every index group look expired
+				if rp.Duration == 0 || rp.IndexGroups[i].EndTime.Add(rp.Duration).Add(RetentionDelayedTime).After(t) {
 					continue
 				}
 				indexIds := make([]uint64, 0, len(rp.IndexGroups[i].Indexes))
